@@ -105,9 +105,13 @@ class Scene:
 
     def reset_clock(self):
         self.clock = 1_000_000_000 if self.clockmode != "future" else int(time.time()) + 5000
+        if self.clockmode == "dst":
+            # 2001-10-28 00:20 UTC, 40 minutes before clocks go back in a zone with daylight saving (TZ is set
+            # to such a zone for the shard): in the repeated hour a later instant has an earlier wall-clock time
+            self.clock = 1004227200 + 1200
 
     def tick(self):
-        self.clock += 10 if self.clockmode == "logical" else 0.25
+        self.clock += {"logical": 10, "dst": 600}.get(self.clockmode, 0.25)
         return self.clock
 
     def wipe(self):
@@ -251,7 +255,7 @@ def run_crash(shard, ctx):
     scene = Scene(scratch / "crash")
     # every other shard: all processes of the history report one and the same process id (containers, hosts
     # sharing the directory, recycled ids) - a left-over temporary file is then met again under its own name
-    same_pid = shard["index"] % 2 == 0
+    same_pid = bool(shard.get("same_pid"))
     sched.FIXED_PID = 4242 if same_pid else None
     for scenario in shard["scenarios"]:
         if scenario == "cli-output":
@@ -270,7 +274,7 @@ def run_crash(shard, ctx):
         ctx.count(f"crash:yield-points:{scenario}:{shard['size']}", len(locs))
         ctx.note(f"yield-points:{scenario}:{shard['size']}", f"{len(locs)} (raw file ops: {sum(1 for l in locs if l.startswith('raw:') or l.startswith('os.'))})")
         if classify_result(res, ref) == "WRONG":
-            ctx.violation(f"crash:{scenario}:uninterrupted-run-wrong:{wrong_sig(res, ref)}", describe_wrong(res, ref), {"kind": "crash", "scenario": scenario, "size": shard["size"], "k": None, "seed": shard["seed"], "index": shard["index"]})
+            ctx.violation(f"crash:{scenario}:uninterrupted-run-wrong:{wrong_sig(res, ref)}", describe_wrong(res, ref), {"kind": "crash", "scenario": scenario, "size": shard["size"], "k": None, "seed": shard["seed"], "index": shard["index"], "same_pid": same_pid})
         states = {}
         ks = range(len(locs) + 1)
         if shard.get("stride", 1) > 1:
@@ -288,7 +292,7 @@ def run_crash(shard, ctx):
                 continue
             states[sh] = (k, loc)
             ctx.nontrivial(["crash", scenario, shard["size"], sh])
-            case = {"kind": "crash", "scenario": scenario, "size": shard["size"], "k": k, "seed": shard["seed"], "index": shard["index"]}
+            case = {"kind": "crash", "scenario": scenario, "size": shard["size"], "k": k, "seed": shard["seed"], "index": shard["index"], "same_pid": same_pid}
             left = scene.snapshot() if any(p.name.endswith(".tmp") for p in scene.dir.iterdir()) else None
             if not fresh_check(ctx, scene, ref, f"crash:{scenario}:killed-at-{_locclass(loc)}", case):
                 continue
@@ -321,13 +325,13 @@ def run_crash(shard, ctx):
             if res and res[0] == "ok":
                 ctx.count("interrupt:swallowed-by-the-code")
                 if classify_result(res, ref) == "WRONG":
-                    ctx.violation(f"interrupt:{scenario}:returned-silently-wrong:{wrong_sig(res, ref)}", describe_wrong(res, ref), {"kind": "interrupt", "scenario": scenario, "size": shard["size"], "k": k, "seed": shard["seed"], "index": shard["index"]})
+                    ctx.violation(f"interrupt:{scenario}:returned-silently-wrong:{wrong_sig(res, ref)}", describe_wrong(res, ref), {"kind": "interrupt", "scenario": scenario, "size": shard["size"], "k": k, "seed": shard["seed"], "index": shard["index"], "same_pid": same_pid})
             sh = "i" + scene.state_hash()
             if sh in states:
                 continue
             states[sh] = (k, loc)
             ctx.nontrivial(["interrupt", scenario, shard["size"], sh])
-            case = {"kind": "interrupt", "scenario": scenario, "size": shard["size"], "k": k, "seed": shard["seed"], "index": shard["index"]}
+            case = {"kind": "interrupt", "scenario": scenario, "size": shard["size"], "k": k, "seed": shard["seed"], "index": shard["index"], "same_pid": same_pid}
             fresh_check(ctx, scene, ref, f"interrupt:{scenario}:raised-at-{_locclass(loc)}", case)
         ctx.count(f"crash:distinct-states:{scenario}:{shard['size']}", len(states))
         if len(ctx.samples) < 2:
@@ -561,6 +565,9 @@ def run_histories(shard, ctx):
     scratch = Path(os.environ.get("VERIF_SHARD_SCRATCH", "."))
     scene = Scene(scratch / "hist", symlink=shard.get("symlink", False), clockmode=shard.get("clock", "logical"))
     ctx.count(f"history:clock-{scene.clockmode}-shards")
+    if scene.clockmode == "dst":
+        os.environ["TZ"] = "GMT0BST,M3.5.0/1,M10.5.0/2"
+        time.tzset()
     if shard.get("symlink"):
         ctx.count("history:fasta-via-symlink-shards")
     if shard["mode"] == "all":
@@ -588,6 +595,9 @@ def run(shard, ctx):
 def replay(case, ctx):
     scratch = Path(os.environ.get("VERIF_SHARD_SCRATCH", "."))
     if case["kind"] == "history":
+        if case.get("clock") == "dst":
+            os.environ["TZ"] = "GMT0BST,M3.5.0/1,M10.5.0/2"
+            time.tzset()
         run_history(ctx, Scene(scratch / "hist", symlink=case.get("symlink", False), clockmode=case.get("clock", "logical")), case["steps"], rng_for(case["seed"], "c15hv", case["index"], case["i"]), case)
         return
     rng = rng_for(case["seed"], "c15crash" if case["kind"] in ("crash", "interrupt") else "c15sched", case["index"])
@@ -601,7 +611,7 @@ def replay(case, ctx):
         else:
             scene.setup(case["scenario"], data, old)
         ref = reference(data)
-        sched.FIXED_PID = 4242 if case["index"] % 2 == 0 else None
+        sched.FIXED_PID = 4242 if case.get("same_pid") else None
         if case["k"] is not None and case["kind"] == "interrupt":
             sched.run_until_interrupt(scene.fa, case["k"])
         elif case["k"] is not None:
@@ -637,19 +647,23 @@ def plan(tier, seed):
         sh += [{"kind": "history", "mode": "random", "n": 40}, {"kind": "history", "mode": "random", "n": 40, "symlink": True}]
         sh += [{"kind": "history", "mode": "random", "n": 40, "clock": "future"}, {"kind": "history", "mode": "random", "n": 30, "clock": "subsecond"}]
         sh += [{"kind": "history", "mode": "all", "length": 3, "part": 0, "nparts": 2, "clock": "future"}]
+        sh += [{"kind": "history", "mode": "random", "n": 40, "clock": "dst"}]
     else:
         sh += [{"kind": "history", "mode": "all", "length": 4, "part": p, "nparts": 6} for p in range(6)]
         sh += [{"kind": "history", "mode": "random", "n": 400} for _ in range(2)] + [{"kind": "history", "mode": "random", "n": 400, "symlink": True}]
         sh += [{"kind": "history", "mode": "all", "length": 3, "part": 0, "nparts": 1, "symlink": True}]
         sh += [{"kind": "history", "mode": "random", "n": 400, "clock": "future"}, {"kind": "history", "mode": "random", "n": 400, "clock": "subsecond"}]
         sh += [{"kind": "history", "mode": "all", "length": 4, "part": p, "nparts": 3, "clock": "future"} for p in range(3)]
+        sh += [{"kind": "history", "mode": "random", "n": 400, "clock": "dst"}, {"kind": "history", "mode": "all", "length": 3, "part": 0, "nparts": 1, "clock": "dst"}]
     # crash points
-    sh += [{"kind": "crash", "size": "small", "scenarios": ["cold", "stale", "equal-mtime"]},
-           {"kind": "crash", "size": "small", "scenarios": ["fai-deleted", "agp-deleted", "fresh", "cli-output"]}]
+    # (same_pid: every process of the shard's histories reports one process id)
+    sh += [{"kind": "crash", "size": "small", "scenarios": ["cold", "stale", "equal-mtime"], "same_pid": True},
+           {"kind": "crash", "size": "small", "scenarios": ["fai-deleted", "agp-deleted", "fresh", "cli-output"]},
+           {"kind": "crash", "size": "small", "scenarios": ["fai-deleted", "agp-deleted", "cli-output"], "same_pid": True}]
     if quick:
-        sh += [{"kind": "crash", "size": "large", "scenarios": ["stale"], "stride": 9}]
+        sh += [{"kind": "crash", "size": "large", "scenarios": ["stale"], "stride": 9, "same_pid": True}]
     else:
-        sh += [{"kind": "crash", "size": "large", "scenarios": [s]} for s in ("cold", "stale", "fai-deleted", "agp-deleted")]
+        sh += [{"kind": "crash", "size": "large", "scenarios": [s], "same_pid": s in ("stale", "agp-deleted")} for s in ("cold", "stale", "fai-deleted", "agp-deleted")]
     # interleavings
     for scenario in ("cold", "stale", "fai-deleted", "agp-deleted", "fresh"):
         sh.append({"kind": "sched", "size": "small", "scenario": scenario, "mode": "2p-b1", "random": 40 if quick else 150})
@@ -681,6 +695,7 @@ def gates(c, tier):
         "history:fasta-via-symlink-shards": 1,
         "history:clock-future-shards": 1,
         "history:clock-subsecond-shards": 1,
+        "history:clock-dst-shards": 1,
         "history:reload-kept:loud": 10,
         "crash:runs": 400,
         "crash:cli-output-scenarios": 1,
